@@ -33,7 +33,7 @@ __CPROVER_requires(g_snap == ((g_k < p->length) ? p->buffer[g_k] : 0))
 #endif
 /* success: the returned pointer is buffer+offset and needed+1 bytes are available there (C09: writers stay inside) */
 __CPROVER_ensures(__CPROVER_return_value != NULL ==> (p->buffer != NULL && __CPROVER_return_value == p->buffer + p->offset && p->offset == __CPROVER_old(p->offset) &&
-    p->offset + needed + 1 <= p->length && __CPROVER_w_ok(p->buffer, p->length))) /*@C09 C04 C01*/
+    p->offset + needed + 1 <= p->length && __CPROVER_w_ok(p->buffer, p->length))) /*@C09 C04 C05*/
 /* caller-supplied buffer: never reallocated, no hook called, success exactly when the request fits (monotone in length) */
 __CPROVER_ensures(__CPROVER_old(p->noalloc) ==> (p->buffer == __CPROVER_old(p->buffer) && p->length == __CPROVER_old(p->length) && g_hook_allocs == __CPROVER_old(g_hook_allocs) && g_hook_frees == __CPROVER_old(g_hook_frees))) /*@C09*/
 __CPROVER_ensures(__CPROVER_old(p->noalloc) ==> ((__CPROVER_return_value != NULL) == ENS_FITS(p, needed))) /*@C09*/
